@@ -240,26 +240,47 @@ def mentions_call(e, ev):
     return mentions(e, lambda x: x[0] == "call" and len(x) > 3 and (x[1], x[3]) == key)
 
 
+def unwrap_views(e):
+    e = strip_load(e)
+    for _ in range(4):
+        if e[0] == "call" and e[1].split("::")[-1] in ("deref", "as_slice", "as_ref", "borrow") and e[2]:
+            e = strip_load(e[2][0])
+        elif e[0] == "cast":
+            e = strip_load(e[2])
+    return e
+
+
 def ok_values(b):
-    """(site, payload expression) of every way the function returns success, and the other results"""
+    """(site, payload expression, chain) of every way the function returns success, and the other results.  The returned
+    value is traced back through copies to the statements / calls that produced it (closures handed to Option/Result
+    combinators are part of the function's own control flow by now), so `site` is where the Ok(..) was built and the path
+    facts there say which fallible steps succeeded."""
     oks, others = [], []
-    for d in b.defs().get(0, []):
-        site = (d[0], d[1])
-        e = b.expr_rvalue(d[3], site) if d[2] == "assign" else b.expr_call(d[3], site)
-        c = strip_load(e)
-        arms = list(c[1]) if c[0] == "phi" else [c]
-        for a in arms:
-            a = strip_load(a)
-            if a[0] == "agg" and a[2] == "Ok":
-                oks.append((site, strip_load(dict(a[3])["0"]), None))
-            elif a[0] in ("optmap", "andthen"):
-                oks.append((site, payload(a), a))          # combinator chain: Ok iff every link is Ok
-            elif a[0] == "agg" and a[2] == "Err":
-                others.append((site, a, "err"))
-            elif a[0] == "call" and a[1].split("::")[-1] == "from_residual":
-                others.append((site, a, "err"))
+    seen = set()
+    for r in b.returns:
+        for dsite, kind in b.origins(0, (r, b.term_idx(r))):
+            if dsite is None or dsite in seen:
+                continue
+            seen.add(dsite)
+            blk = b.blocks[dsite[0]]
+            if kind == "call":
+                e = b.expr_call(blk["term"], dsite)
             else:
-                others.append((site, a, "other"))
+                e = b.expr_rvalue(blk["stmts"][dsite[1]]["rv"], dsite)
+            c = strip_load(e)
+            arms = list(c[1]) if c[0] == "phi" else [c]
+            for a in arms:
+                a = strip_load(a)
+                if a[0] == "agg" and a[2] == "Ok":
+                    oks.append((dsite, strip_load(dict(a[3])["0"]), None))
+                elif a[0] in ("optmap", "andthen"):
+                    oks.append((dsite, payload(a), a))          # combinator chain: Ok iff every link is Ok
+                elif a[0] == "agg" and a[2] == "Err":
+                    others.append((dsite, a, "err"))
+                elif a[0] == "call" and a[1].split("::")[-1] == "from_residual":
+                    others.append((dsite, a, "err"))
+                else:
+                    others.append((dsite, a, "other"))
     return oks, others
 
 
@@ -303,12 +324,17 @@ def sz345(F, R):
         else:
             R.ok("SZ3", sers[0].where(), "save(): bincode serialisation of the whole `self`")
     ws = [e for e in fsops if e.name == "write"]
-    if len(ws) != 1 or len(fsops) != 1:
+    # the same with an explicit handle: File::create(path) + write_all(file, bytes)
+    creates = [e for e in fsops if e.name == "create" and "File" in e.path]
+    wall = [e for e in fsops if e.name == "write_all"]
+    via_handle = len(creates) == 1 and len(wall) == 1 and len(fsops) == 2 and not ws and \
+        mentions_call(wall[0].args[0], creates[0])
+    if not via_handle and (len(ws) != 1 or len(fsops) != 1):
         R.bad("SZ3", "SZ3/Sodg::save/file-writes", save.where(), "cannot establish SZ3: save() performs %d file operations (expected one fs::write)" % len(fsops))
     elif sers:
-        w = ws[0]
+        w = wall[0] if via_handle else ws[0]
         args = [strip_load(a) for a in w.args]
-        okp = args[0] == ("param", 2)
+        okp = (strip_load(creates[0].args[0]) if via_handle else args[0]) == ("param", 2)
         data = args[1]
         okd = mentions_call(data, sers[0]) and \
             not mentions(data, lambda x: x[0] in ("slice", "subslice") or (x[0] == "call" and x[1].split("::")[-1] in
@@ -325,7 +351,11 @@ def sz345(F, R):
     # ---- load
     reads = fallible_events(lraw, pathprefix="std::fs::")
     des = fallible_events(lraw, krate="bincode", names=("deserialize",))
-    if len(reads) != 1 or reads[0].name != "read":
+    # the same with an explicit handle: File::open(path) + read_to_end(file, &mut fresh vector)
+    opens = [e for e in reads if e.name == "open" and "File" in e.path]
+    rte = [e for e in lraw if e.kind == "call" and not e.exp and e.name == "read_to_end"]
+    via_handle = len(reads) == 1 and len(opens) == 1 and len(rte) == 1 and mentions_call(rte[0].args[0], opens[0])
+    if not via_handle and (len(reads) != 1 or reads[0].name != "read"):
         R.bad("SZ4", "SZ4/Sodg::load/file-reads", load.where(), "cannot establish SZ4: load() does not read the file with one fs::read")
         return
     if len(des) != 1:
@@ -335,6 +365,15 @@ def sz345(F, R):
     ra = strip_load(rd.args[0])
     da = strip_load(de.args[-1])
     from_read = mentions_call(da, rd)
+    if via_handle:
+        # the buffer handed to read_to_end is a vector created empty, and it is what gets decoded; nothing else touches it
+        buf = strip_load(rte[0].args[1])
+        fresh = buf[0] == "call" and buf[1].split("::")[-1] in ("new", "with_capacity") and "Vec" in buf[1]
+        others_on_buf = [e for e in lraw if e.kind == "call" and e is not rte[0] and e is not de and e.args and
+                         strip_sites(strip_load(e.args[0])) == strip_sites(buf) and
+                         e.name not in ("len", "as_slice", "deref", "as_ref", "is_empty", "capacity")]
+        from_read = fresh and strip_sites(unwrap_views(da)) == strip_sites(buf) and not others_on_buf and \
+            ev_dominates(rte[0], de)
     cut = mentions(da, lambda x: x[0] in ("slice", "subslice") or (x[0] == "call" and x[1].split("::")[-1] in
                                                                    ("split_at", "get", "take", "first", "last", "chunks", "split_first", "trim_ascii")))
     if ra == ("param", 1) and from_read and not cut:
@@ -393,7 +432,8 @@ def ld12(F, R):
         return
     raw = Collector(F, stop_names=("len", "keys")).collect(load)
     R.analysed(load, len(raw))
-    fallible = [e for e in raw if e.kind == "call" and not e.exp and (e.path.startswith("std::fs::") or e.krate == "bincode")]
+    fallible = [e for e in raw if e.kind == "call" and not e.exp and (e.path.startswith("std::fs::") or e.krate == "bincode" or
+                                                                      e.name in ("read_to_end", "read_to_string", "read_exact"))]
     R.floor("LD1", "fallible calls in load() (file read, decode)", len(fallible), 2, load.where())
     for e in raw:
         if e.kind == "call" and e.name in PANICKY and not e.exp:
@@ -410,6 +450,8 @@ def ld12(F, R):
                 core = strip_load(core[1])
         if core[0] == "call" and any(mentions_call(core, f) for f in fallible):
             continue
+        if core[0] == "agg" and core[2] == "Err":
+            continue        # Err(e).context(..)
         R.bad("LD2", "LD2/Sodg::load/unrecognised-result", load.where(site), "cannot establish LD2: load() returns an unrecognised value",
               {"value": show(a, load)[:300]})
     if not oks:
